@@ -46,6 +46,18 @@ B = [
      "                    kwargs = kwargs or {}\n",
      "                    kwargs = dict(kwargs) if kwargs else {}\n",
      "kwargs copied into a fresh dict"),
+    ("gross_blocks_correct", "ioos_qc/qartod.py",
+     "    # Flag suspect outside of sensor span\n    with np.errstate(invalid=\"ignore\"):\n        flag_arr[(inp < sspan.minv) | (inp > sspan.maxv)] = QartodFlags.FAIL\n\n    return flag_arr.reshape(original_shape)\n",
+     "    # Flag suspect outside of sensor span (evaluated in blocks of 512 elements)\n    with np.errstate(invalid=\"ignore\"):\n        for start in range(0, inp.size, 512):\n            blk = inp[start:start + 512]\n            out = np.ma.filled((blk < sspan.minv) | (blk > sspan.maxv), False)\n            flag_arr[start:start + 512][out] = QartodFlags.FAIL\n\n    return flag_arr.reshape(original_shape)\n",
+     "gross_range fail pass evaluated block-wise (correctly)"),
+    ("spike_pooled_scratch_correct", "ioos_qc/qartod.py",
+     "        ref = np.ma.zeros(inp.size, dtype=np.float64)\n        ref[1:-1] = (inp[0:-2] + inp[2:]) / 2\n        ref = np.ma.masked_invalid(ref)\n",
+     "        global _SCRATCH\n        if \"_SCRATCH\" not in globals() or _SCRATCH.size < inp.size:\n            _SCRATCH = np.empty(max(inp.size, 512), dtype=np.float64)\n        buf = _SCRATCH[:inp.size]\n        buf[:] = 0.0   # re-initialised on every call\n        ref = np.ma.MaskedArray(buf.copy())\n        ref[1:-1] = (inp[0:-2] + inp[2:]) / 2\n        ref = np.ma.masked_invalid(ref)\n",
+     "spike reference built from a pooled module-level scratch buffer that is re-initialised on every call"),
+    ("mapdates_memo_correct", "ioos_qc/utils.py",
+     "    try:\n        # Finally try unix epoch seconds\n        return (\n            pd.to_datetime(dates, unit=\"s\")\n            .to_numpy()\n            .astype(\n                \"datetime64[ns]\",\n            )\n        )\n",
+     "    try:\n        # Finally try unix epoch seconds (memoised on the full content)\n        key = None\n        try:\n            arr = np.asarray(dates)\n            if arr.dtype.kind in \"iuf\":\n                key = (arr.dtype.str, arr.shape, arr.tobytes())\n        except Exception:  # noqa: BLE001\n            key = None\n        memo = mapdates.__dict__.setdefault(\"_memo\", {})\n        if key is not None and key in memo:\n            return memo[key].copy()\n        out = (\n            pd.to_datetime(dates, unit=\"s\")\n            .to_numpy()\n            .astype(\n                \"datetime64[ns]\",\n            )\n        )\n        if key is not None:\n            if len(memo) > 8:\n                memo.clear()\n            memo[key] = out.copy()\n        return out\n",
+     "epoch-seconds conversion memoised on the full byte content of the axis"),
     ("fx_clear_stack_after", "ioos_qc/config_creator/fx_parser.py",
      "    val = evaluate_stack(exprStack[:], stats)\n",
      "    val = evaluate_stack(exprStack[:], stats)\n    del exprStack[:]\n",
